@@ -611,7 +611,7 @@ class World:
 
 # op -> (model op kind, deterministic?)
 PURE_KIND = {
-    "pdf": "eval", "cdf": "eval", "icdf": "eval", "cond": "eval", "marginal": "eval", "sample": "eval",
+    "pdf": "eval", "cdf": "eval", "icdf": "eval", "cond": "eval", "tcond": "eval", "marginal": "eval", "sample": "eval",
     "contour": "contour", "design": "design", "plot": "plot", "save": "save", "getter": "getter",
 }
 
@@ -662,6 +662,16 @@ def exec_op(w, op):
         out["args"] = [p, s]
         out["entry"] = "GlobalHierarchicalModel.conditional_icdf"
         out["call"] = lambda: (m.conditional_icdf(p, dim, s), m.conditional_cdf(s[:, dim], dim, s))
+    elif name == "tcond":
+        which = op["which"]
+        first = w.arrays.setdefault("TC%d:%s" % (op["m"], which),
+                                    np.array([0.25, 0.9]) if which == "icdf" else np.array([4.0, 5.5]))
+        given = w.arrays.setdefault("TCG%d" % op["m"], np.array([[2.0], [3.5]]))
+        out["args"] = [first, given]
+        out["entry"] = "TransformedModel.conditional_" + which
+        out["det"] = False  # Monte-Carlo; what must hold is that the caller's arrays and the model are untouched
+        f = getattr(m, "conditional_" + which)
+        out["call"] = lambda: f(first, 1, given)
     elif name == "marginal":
         unc = [i for i in range(lm.n_dim) if lm.ghm.conditional_on[i] is None]
         dim = unc[op["dim"] % len(unc)]
@@ -1079,8 +1089,11 @@ def random_ops(rng, specs, length, allow_cdf):
         var = str(rng.choice(VARIANTS))
         r = rng.uniform()
         if is_tm:
-            c = rng.integers(0, 4)
-            if c == 0:
+            c = rng.integers(0, 5)
+            if c == 4:
+                # Monte-Carlo conditional cdf / icdf of the transformed model on caller-owned float64 arrays
+                ops.append({"op": "tcond", "m": m, "which": str(rng.choice(["icdf", "cdf"]))})
+            elif c == 0:
                 ops.append({"op": "pdf", "m": m, "variant": str(rng.choice(["float", "view", "fortran", "stride"])), "rows": 20})
             elif c == 1:
                 ops.append({"op": "sample", "m": m, "n": 50, "rs": 1})
